@@ -1,6 +1,6 @@
 (* Property C15 — group-level columns have one value per group. *)
 From Coq Require Import ZArith Bool String List.
-From GettsimModel Require Import Val Engine Dag Levels Aggregation.
+From GettsimModel Require Import Val Ast Eval PolicyEnv Column Engine Dag Levels Aggregation Table TableConst.
 Import ListNotations.
 
 (* Along any evaluation: if K is a set of names such that every node in K is either pointwise with
@@ -24,3 +24,17 @@ Theorem C15_aggregates_constant : forall {A} (op : A -> A -> A) dflt g (l : list
   nth_error (grouped_total op dflt g l) i = nth_error (grouped_total op dflt g l) j.
 Proof. intros. eapply grouped_total_const; eauto. Qed.
 Print Assumptions C15_aggregates_constant.
+
+(* END TO END ON THE MODEL: for the concrete engine Table.sem, any relation E between rows (within
+   the table) and any set known0 of supplied columns that are constant on E and of full length, every
+   column the dataflow const_nodes marks is constant on E — rules (declared dtype, rounding) and unit
+   conversions over constant arguments, group reductions keyed by a constant id column *)
+Theorem C15_dataflow_sound : forall ft P rounding nrows (E : nat -> nat -> Prop),
+  (forall i j, E i j -> (i < nrows)%nat /\ (j < nrows)%nat) ->
+  forall known0 S acc seen e t,
+  (forall x, smem x acc = true -> smem x seen = true) -> fresh_names known0 seen S ->
+  tab_const nrows E (fun x => smem x acc || known0 x) e ->
+  run column (to_sys column (sem ft P rounding nrows) S) e = Ok t ->
+  tab_const nrows E (fun x => smem x (const_nodes ft known0 S acc) || known0 x) t.
+Proof. intros ft P rounding nrows E HE. exact (const_nodes_sound ft P rounding nrows E HE). Qed.
+Print Assumptions C15_dataflow_sound.
